@@ -43,3 +43,102 @@ pub trait RequestHandler {
 }
 
 //@item rodbus/src/server/handler.rs | Authorization
+
+// `&self` methods: no state, no log.  Relational contract: the answer is one the handler `may` give for exactly this call and role.
+pub trait AuthorizationHandler {
+    spec fn may_answer(&self, call: crate::server::task::AuthCall, role: Seq<char>, d: Authorization) -> bool;
+//@fn rodbus/src/server/handler.rs | trait AuthorizationHandler::read_coils | tags=C08 | nobody
+//@|    ensures self.may_answer(crate::server::task::AuthCall::ReadCoils(_unit_id, _range), _role@, r),
+//@fn rodbus/src/server/handler.rs | trait AuthorizationHandler::read_discrete_inputs | tags=C08 | nobody
+//@|    ensures self.may_answer(crate::server::task::AuthCall::ReadDiscreteInputs(_unit_id, _range), _role@, r),
+//@fn rodbus/src/server/handler.rs | trait AuthorizationHandler::read_holding_registers | tags=C08 | nobody
+//@|    ensures self.may_answer(crate::server::task::AuthCall::ReadHoldingRegisters(_unit_id, _range), _role@, r),
+//@fn rodbus/src/server/handler.rs | trait AuthorizationHandler::read_input_registers | tags=C08 | nobody
+//@|    ensures self.may_answer(crate::server::task::AuthCall::ReadInputRegisters(_unit_id, _range), _role@, r),
+//@fn rodbus/src/server/handler.rs | trait AuthorizationHandler::write_single_coil | tags=C08 | nobody
+//@|    ensures self.may_answer(crate::server::task::AuthCall::WriteSingleCoil(_unit_id, _idx), _role@, r),
+//@fn rodbus/src/server/handler.rs | trait AuthorizationHandler::write_single_register | tags=C08 | nobody
+//@|    ensures self.may_answer(crate::server::task::AuthCall::WriteSingleRegister(_unit_id, _idx), _role@, r),
+//@fn rodbus/src/server/handler.rs | trait AuthorizationHandler::write_multiple_coils | tags=C08 | nobody
+//@|    ensures self.may_answer(crate::server::task::AuthCall::WriteMultipleCoils(_unit_id, _range), _role@, r),
+//@fn rodbus/src/server/handler.rs | trait AuthorizationHandler::write_multiple_registers | tags=C08 | nobody
+//@|    ensures self.may_answer(crate::server::task::AuthCall::WriteMultipleRegisters(_unit_id, _range), _role@, r),
+}
+
+// ---- the application as seen by the server: one abstract handler state per configured unit id ----
+pub struct HState {
+    pub log: Seq<HandlerEvent>,
+    pub may_coil: spec_fn(u16, Result<bool, ExceptionCode>) -> bool,
+    pub may_di: spec_fn(u16, Result<bool, ExceptionCode>) -> bool,
+    pub may_hr: spec_fn(u16, Result<u16, ExceptionCode>) -> bool,
+    pub may_ir: spec_fn(u16, Result<u16, ExceptionCode>) -> bool,
+}
+pub open spec fn hview<H: RequestHandler + ?Sized>(h: &H) -> HState {
+    HState {
+        log: h.log(),
+        may_coil: |a: u16, r: Result<bool, ExceptionCode>| h.may_read_coil(a, r),
+        may_di: |a: u16, r: Result<bool, ExceptionCode>| h.may_read_discrete_input(a, r),
+        may_hr: |a: u16, r: Result<u16, ExceptionCode>| h.may_read_holding_register(a, r),
+        may_ir: |a: u16, r: Result<u16, ExceptionCode>| h.may_read_input_register(a, r),
+    }
+}
+
+// ---- shims for `ServerHandlerType<T> = Arc<Mutex<Box<T>>>` and `ServerHandlerMap<T>` (trusted: exclusive access to the handler
+// while the lock is held, lock always succeeds, BTreeMap lookups / values_mut as documented).  The call-site text
+// `handler.lock().unwrap().as_mut()` is unchanged; each step hands on a `&mut` whose final state is the final state of its parent.
+#[verifier::external_body] pub struct ServerHandlerType<#[verifier::reject_recursive_types] T> { p: core::marker::PhantomData<T> }
+#[verifier::external_body] pub struct Locked<#[verifier::reject_recursive_types] T> { p: core::marker::PhantomData<T> }
+#[verifier::external_body] pub struct Guard<#[verifier::reject_recursive_types] T> { p: core::marker::PhantomData<T> }
+impl<T: RequestHandler> ServerHandlerType<T> {
+    pub uninterp spec fn st(&self) -> HState;
+    #[verifier::external_body]
+    pub fn lock(&mut self) -> (r: &mut Locked<T>)
+        ensures r.st() == old(self).st(), final(self).st() == final(r).st() { unimplemented!() }
+}
+impl<T: RequestHandler> Locked<T> {
+    pub uninterp spec fn st(&self) -> HState;
+    #[verifier::external_body]
+    pub fn unwrap(&mut self) -> (r: &mut Guard<T>)
+        ensures r.st() == old(self).st(), final(self).st() == final(r).st() { unimplemented!() }
+}
+impl<T: RequestHandler> Guard<T> {
+    pub uninterp spec fn st(&self) -> HState;
+    #[verifier::external_body]
+    pub fn as_mut(&mut self) -> (r: &mut T)
+        ensures hview(r) == old(self).st(), final(self).st() == hview(final(r)) { unimplemented!() }
+}
+
+pub struct ServerHandlerMap<T> { pub ghost states: Map<u8, HState>, pub p: core::marker::PhantomData<T> }
+// iterator over all configured handlers (values_mut): `ids` = unit ids still to be visited, `cur` = their current states,
+// `fin` = the states the map will have when the iteration is over (prophecy; pinned down cell by cell by `next`)
+pub struct HandlerIterMut<T> { pub ghost ids: Seq<u8>, pub ghost cur: Map<u8, HState>, pub ghost fin: Map<u8, HState>, pub p: core::marker::PhantomData<T> }
+impl<T: RequestHandler> ServerHandlerMap<T> {
+    #[verifier::external_body]
+    pub fn get(&mut self, id: crate::types::UnitId) -> (r: Option<&mut ServerHandlerType<T>>)
+        ensures
+            r is None <==> !old(self).states.contains_key(id.value),
+            r is None ==> final(self).states == old(self).states,
+            r is Some ==> r->Some_0.st() == old(self).states[id.value]
+                && final(self).states == old(self).states.insert(id.value, final(r->Some_0).st()),
+    { unimplemented!() }
+    #[verifier::external_body]
+    pub fn iter_mut(&mut self) -> (it: HandlerIterMut<T>)
+        ensures
+            it.ids.no_duplicates(), it.ids.to_set() == old(self).states.dom(),   // every configured handler exactly once
+            it.cur == old(self).states,
+            it.fin.dom() == old(self).states.dom(),
+            final(self).states == it.fin,
+    { unimplemented!() }
+}
+impl<T: RequestHandler> HandlerIterMut<T> {
+    #[verifier::external_body]
+    pub fn next(&mut self) -> (r: Option<&mut ServerHandlerType<T>>)
+        ensures
+            final(self).fin == old(self).fin, final(self).cur == old(self).cur,
+            old(self).ids.len() == 0 ==> r is None && final(self).ids == old(self).ids,
+            old(self).ids.len() > 0 ==> r is Some && final(self).ids == old(self).ids.skip(1)
+                && r->Some_0.st() == old(self).cur[old(self).ids[0]]
+                && final(r->Some_0).st() == old(self).fin[old(self).ids[0]],
+    { unimplemented!() }
+}
+//@trusted ServerHandlerMap / Arc<Mutex<Box<T>>>: lock() always succeeds and gives exclusive access to the handler; get() = BTreeMap::get_mut; iter_mut() = values_mut() yields every configured handler exactly once
